@@ -19,7 +19,7 @@ func TestC10(t *testing.T) {
 	rc := fullRuleCfg()
 	rc.MinRules, rc.MaxRules, rc.MaxActions, rc.ExprDepth = 2, 6, 4, 2
 	rc.Forget = false
-	cfg := rsGenCfg{Rules: rc, Vary: true, JSONFront: true}
+	cfg := rsGenCfg{Rules: rc, Vary: true, JSONFront: true, GRB: true}
 	check(t, 0, budget(6000, 80000), func(rt *rapid.T) {
 		c, rs := genRSCase(rt, cfg)
 		maybeFailingConditions(rt, c, rs)
